@@ -78,6 +78,11 @@ CHECKS = {
                      "plus DeltaR / isNonnull / getAttributeFloat / getAttributeVectorFloat: every call is checked by a contract inside the translating process and the compiled job's values are "
                      "compared with the same arithmetic evaluated by Python; wrong arity and call style must be refused.",
                 note="executable bodies are restricted to arithmetic so Python can evaluate them; contract evaluations are counted (zero = inconclusive)", ref="4/C11"),
+    "C06": dict(cat="exploration", technique="request log of the model event store / edm::Event (idiom, container type, bank, token serial) + compile/link of emitted code against per-collection model headers and libraries; exhaustive malformed-declaration matrix",
+                text="Built-in and metadata-declared collections (own header and library; one replacing a built-in name) are used 1-3 per query with hostile bank strings on all backends: the "
+                     "job must request exactly the named (container type, bank) pairs with the backend's idiom, one initialised token per use on miniAOD, fail cleanly on an absent ATLAS bank, "
+                     "and compile/link only through the headers/libraries the specification lists. Every malformed declaration or call of the enumerated matrix must be refused.",
+                note="a decoy bank of the same name under another container type is present in half of the events", ref="4/C06"),
 }
 
 PENDING_REASON = "check not built yet at this commit (work in progress, see DESIGN.md section 4)"
